@@ -507,7 +507,7 @@ Complete ==
 CookieBinding ==
   (Observed /\ ck.opened) => (ck.key = truth.ckey /\ ck.sc = truth.csc)
 
-\* accepted => what is stored / counted is exactly what was authenticated
+\* accepted => nothing but what was authenticated is stored / counted (that ALL of it is stored is not this property's business)
 AuthenticOnly ==
   (Observed /\ role \in ServerSide \cup {"resp"} /\ outcome = "accepted") => ck.cok
 
